@@ -293,3 +293,22 @@ LEVEL_TEXT["C10"] = {
     "note": "Placement under stealing is schedule dependent and sampled; the machine has 16 PUs, layouts use at most 14 workers, unbound (bind=none) so that parallel shards do not pile on the same PUs.",
     "technique": "property-based testing (generated pool layouts x scheduler pipelines, placement recorder oracle)",
 }
+
+PROPS["C12"] = {
+    "targets": [rt("props/C12_context.cpp", 600, 70, 8000, 900)],
+    "rule": "case = scheduler config + configured stack sizes for the four classes (page aligned sets) + guard pages on/off + 1..3 waves of "
+            "1..12 tasks; each task = stack class, recursion using 10..85% of the configured stack with a canary array per frame, actions at "
+            "spread depths in {yield, suspend (woken by another task), forced migration, register probe around a yield / a suspension (asm stub "
+            "loading rbx, rbp, r12-r15)}, floating point locals across the action, task data / thread id compared, and 'dirt' left behind "
+            "for the next user of the thread object (task data, open disable_interruption scope, unconsumed interruption request); "
+            "non-trivial iff a task was resumed on a different worker at depth >= 3, a thread object was rebound and an earlier wave left "
+            "dirt; distinct by hash",
+    "floor": {"quick": 30, "thorough": 300},
+    "assumptions": ["per-task isolation of the floating point environment (MXCSR / x87 control word) is not asserted: pika's context switch deliberately does not save it",
+                    "usable stack is probed up to 85% of the configured size minus 16 KiB of slack"],
+}
+LEVEL_TEXT["C12"] = {
+    "text": "Generated tasks of all four stack classes with generated configured sizes recurse deep into their stacks writing canaries, yield / suspend / migrate at generated depths (including from a hand-written register probe that loads the callee-saved registers before the switch), and verify on the way back up that every canary, register, floating point local, task-local datum and the thread id is unchanged; the reported stack size must equal the configured size of the class, live stacks must be disjoint, and a task that reuses a recycled thread object must start clean although earlier waves deliberately leave dirt.",
+    "note": "Migration and recycling are schedule dependent and sampled; stack overflow of a too-small stack is detected as a crash (guard pages) or canary corruption.",
+    "technique": "property-based testing (generated stack/suspension programs, canary + register probe + ledger oracles, fork-per-case real runtime)",
+}
